@@ -16,6 +16,7 @@ import (
 	"sync/atomic"
 	"time"
 
+	"verifharness/internal/ports"
 	"verifharness/internal/resp"
 )
 
@@ -109,9 +110,9 @@ type ScanStep struct {
 type Cluster struct {
 	mu    sync.Mutex
 	Nodes []*Node
-	owner [NumSlots]int          // index of the owning master, -1 none
-	mig   map[int][2]int         // slot -> (src, dst)
-	Down  bool                   // answer CLUSTERDOWN to keyed commands
+	owner [NumSlots]int  // index of the owning master, -1 none
+	mig   map[int][2]int // slot -> (src, dst)
+	Down  bool           // answer CLUSTERDOWN to keyed commands
 	seq   int64
 	conid int64
 	Trace func(Event)
@@ -144,7 +145,16 @@ func NewCluster(masters, replicasPer int) (*Cluster, error) {
 }
 
 func (c *Cluster) addNode(master *Node) (*Node, error) {
-	ln, err := net.Listen("tcp", "127.0.0.1:0")
+	// a port of this process' own blocks below the ephemeral range: a node that is shut down and
+	// restarted finds its port again, nobody's outgoing connection can have taken it
+	var ln net.Listener
+	var err error
+	for try := 0; try < 20; try++ {
+		ln, err = net.Listen("tcp", fmt.Sprintf("127.0.0.1:%d", ports.Free()))
+		if err == nil {
+			break
+		}
+	}
 	if err != nil {
 		return nil, err
 	}
@@ -490,8 +500,12 @@ func (n *Node) serve(cn *conn) {
 			if n.c.Trace != nil {
 				n.c.Trace(Event{Kind: "reply", Node: n.Idx, Conn: cn.id, Rec: rec})
 			}
+			// write lock before the cluster lock is released: replies leave a connection in
+			// the order the commands were processed (see flushHeld)
+			cn.wmu.Lock()
 			n.c.mu.Unlock()
-			cn.write(raw)
+			cn.writeLocked(raw)
+			cn.wmu.Unlock()
 			if rec.closeAfter {
 				time.Sleep(50 * time.Millisecond)
 				return
@@ -502,9 +516,38 @@ func (n *Node) serve(cn *conn) {
 
 func (cn *conn) write(b []byte) {
 	cn.wmu.Lock()
+	cn.writeLocked(b)
+	cn.wmu.Unlock()
+}
+
+func (cn *conn) writeLocked(b []byte) {
 	cn.nc.SetWriteDeadline(time.Now().Add(10 * time.Second))
 	cn.nc.Write(b)
-	cn.wmu.Unlock()
+}
+
+// flushHeld writes held replies in order. It is called with the cluster lock held and
+// releases it: the write locks of the connections involved are taken BEFORE the cluster
+// lock is released, so that the reply to a command processed right afterwards (written by
+// the connection's own goroutine) queues behind the held replies instead of overtaking them.
+func (c *Cluster) flushHeld(rel []*pendingReply) {
+	var locked []*conn
+	seen := map[*conn]bool{}
+	for _, p := range rel {
+		if !seen[p.cn] {
+			seen[p.cn] = true
+			locked = append(locked, p.cn)
+		}
+	}
+	for _, cn := range locked {
+		cn.wmu.Lock()
+	}
+	c.mu.Unlock()
+	for _, p := range rel {
+		p.cn.writeLocked(p.raw)
+	}
+	for _, cn := range locked {
+		cn.wmu.Unlock()
+	}
 }
 
 // process executes one command under the cluster lock and returns the raw reply.
@@ -682,10 +725,7 @@ func (n *Node) SetGate(on bool) {
 			}
 		}
 	}
-	n.c.mu.Unlock()
-	for _, p := range flush {
-		p.cn.write(p.raw)
-	}
+	n.c.flushHeld(flush)
 }
 
 // Pending returns the number of held replies.
@@ -708,10 +748,7 @@ func (n *Node) Release(k int) int {
 			n.c.Trace(Event{Kind: "reply", Node: n.Idx, Conn: p.cn.id, Rec: p.rec})
 		}
 	}
-	n.c.mu.Unlock()
-	for _, p := range rel {
-		p.cn.write(p.raw)
-	}
+	n.c.flushHeld(rel)
 	return k
 }
 
